@@ -24,27 +24,33 @@ def sched(rng, n):
     if rng.chance(1, 2):
         # already-known package
         L.append(vlib.line("q.atomic", "9", "a9", *KEYS[0])); L.append(vlib.line("q.release", "a9", *KEYS[0]))
-    parked = []
+    entered, parked = [], []
     nxt = 1
     for _ in range(n):
         k = rng.below(100)
         key = KEYS[0] if rng.chance(3, 4) else KEYS[1]
-        if k < 30 and len(parked) < 3:
+        if k < 25 and len(entered) + len(parked) < 3:
             c = str(nxt); nxt += 1
-            L.append(vlib.line("q.start", c, "h" + c, *key)); parked.append(c)
-        elif k < 50:
+            L.append(vlib.line("q.enter", c, "h" + c, *key)); entered.append(c)
+        elif k < 45 and entered:
+            c = entered.pop(rng.below(len(entered)))
+            L.append(vlib.line("q.update", c)); parked.append(c)   # may already have won: later q.insert is then a nop
+        elif k < 58:
             c = str(nxt); nxt += 1
             L.append(vlib.line("q.atomic", c, "a" + str(rng.below(2)), *key))
-        elif k < 68 and parked:
+        elif k < 72 and parked:
             c = parked.pop(rng.below(len(parked)))
             L.append(vlib.line("q.insert", c))
-        elif k < 73 and parked:
-            c = parked.pop(rng.below(len(parked)))
+        elif k < 77 and (parked or entered):
+            src = parked if (parked and (not entered or rng.chance(1, 2))) else entered
+            c = src.pop(rng.below(len(src)))
             L.append(vlib.line("q.busy", c))
-        elif k < 85:
+        elif k < 87:
             L.append(vlib.line("q.release", "a0", *key))
         else:
             L.append(vlib.line("q.tick", str(rng.choice([1, 29999, 30000, 30001, 15000, 2]))))
+    for c in entered:
+        L.append(vlib.line("q.update", c)); parked.append(c)
     for c in parked:
         L.append(vlib.line("q.insert", c))
     L.append(vlib.line("q.dump"))
@@ -59,8 +65,9 @@ def streams(ctx):
     fixed = [
         ["q.reset", ("q.atomic", "1", "a0", *KEYS[0]), ("q.tick", "29999"), ("q.atomic", "2", "a1", *KEYS[0]), ("q.tick", "1"),
          ("q.atomic", "3", "a1", *KEYS[0]), ("q.tick", "1"), ("q.atomic", "4", "a1", *KEYS[0]), "q.dump"],
-        ["q.reset", ("q.start", "1", "h1", *KEYS[0]), ("q.start", "2", "h2", *KEYS[0]), ("q.insert", "2"), ("q.insert", "1"), "q.dump"],
-        ["q.reset", ("q.start", "1", "h1", *KEYS[0]), ("q.atomic", "2", "a0", *KEYS[0]), ("q.insert", "1"), ("q.atomic", "3", "a0", *KEYS[1]), "q.dump"],
+        ["q.reset", ("q.enter", "1", "h1", *KEYS[0]), ("q.enter", "2", "h2", *KEYS[0]), ("q.update", "1"), ("q.update", "2"), ("q.insert", "2"), ("q.insert", "1"), "q.dump"],
+        ["q.reset", ("q.enter", "1", "h1", *KEYS[0]), ("q.atomic", "2", "a0", *KEYS[0]), ("q.update", "1"), ("q.insert", "1"), ("q.atomic", "3", "a0", *KEYS[1]), "q.dump"],
+        ["q.reset", ("q.atomic", "9", "a9", *KEYS[0]), ("q.release", "a9", *KEYS[0]), ("q.enter", "1", "h1", *KEYS[0]), ("q.atomic", "2", "a0", *KEYS[0]), ("q.update", "1"), ("q.insert", "1"), "q.dump"],
     ]
     hist = [[vlib.line(*(x if isinstance(x, tuple) else (x,))) for x in f] for f in fixed]
     hist += [sched(rng, 3 + rng.below(10)) for _ in range(n)]
@@ -83,10 +90,11 @@ def streams(ctx):
                     now += int(f[1])
                 elif f[0] == "q.release":
                     holders.pop((f[2], f[3]), None)
-                elif f[0] in ("q.start", "q.atomic", "q.insert"):
-                    if f[0] == "q.start":
+                elif f[0] in ("q.enter", "q.atomic", "q.insert", "q.update"):
+                    if f[0] == "q.enter":
                         pend[f[1]] = ((f[3], f[4]), now)
-                    key, t0 = pend.get(f[1], ((None, None), now)) if f[0] == "q.insert" else ((f[3], f[4]), now)
+                        continue
+                    key, t0 = pend.get(f[1], ((None, None), now)) if f[0] in ("q.insert", "q.update") else ((f[3], f[4]), now)
                     if o == "T":
                         h = holders.get(key)
                         if h is not None and now <= h[1] + 30000:
@@ -100,6 +108,6 @@ def streams(ctx):
 
     def nt(c, o):
         t = c.get("tag")
-        return bool(t) and sum(1 for k in t if k in ("q.start", "q.atomic")) >= 2
+        return bool(t) and sum(1 for k in t if k in ("q.enter", "q.atomic")) >= 2
     return [Stream("claim-schedules", cases, nontrivial=nt, derive=derive, shrinkable=False,
                    model_eq=lambda i, m: gen_cache.canon(i) == gen_cache.canon(m))]
